@@ -236,7 +236,7 @@ class HttpAuthenticated(HttpTransport):
             if sys.version_info < (3, 0):
                 encodedString = base64.b64encode(credentials)
             else:
-                encodedBytes = base64.urlsafe_b64encode(credentials.encode())
+                encodedBytes = base64.b64encode(credentials.encode())
                 encodedString = encodedBytes.decode()
             request.headers['Authorization'] = 'Basic %s' % encodedString
 
